@@ -174,11 +174,11 @@ func (e *Exec) GenGo(r *Rng, v reflect.Value, m Mode, depth int) {
 		if !zero {
 			v.SetUint(uint64(r.w32()))
 		}
-	case reflect.Int64:
+	case reflect.Int64, reflect.Int:
 		if !zero {
 			v.SetInt(int64(r.w64()))
 		}
-	case reflect.Uint64:
+	case reflect.Uint64, reflect.Uint:
 		if !zero {
 			v.SetUint(r.w64())
 		}
@@ -704,6 +704,9 @@ func GenOps(e *Exec, args []string) {
 			// C06 / C08 (CopyTo step): an arbitrary typed struct into a decoded plan / state object (null objects and
 			// collections hold nil Attrs / Elems there, unknown values anywhere): no panic, no diagnostic, the result follows the struct
 			emit(J{"op": "copyTo", "type": t.Name, "obj": genGo(Mode{ZeroPct: 15 * (i % 3)}), "tf": enc, "tag": "to-plan"})
+			// ... and into a hand-made state object: known lists / maps whose Elems container is nil (`types.Map{ElemType: t}`),
+			// known nested objects whose Attrs container is nil, at every depth
+			emit(J{"op": "copyTo", "type": t.Name, "obj": genGo(Mode{ZeroPct: 10 * (i % 3)}), "tf": EncodeTf(nilContainers(o, 0)), "tag": "to-plan"})
 			// C06: malformed variants
 			emit(J{"op": "copyFrom", "type": t.Name, "tf": EncodeTf(malform(r, o, 15)), "prior": "zero", "tag": "from-malformed"})
 			emit(J{"op": "copyFrom", "type": t.Name, "tf": EncodeTf(malform(r, o, 40)), "prior": genGo(Mode{ZeroPct: 30}), "tag": "from-malformed"})
@@ -863,6 +866,38 @@ func GenOps(e *Exec, args []string) {
 			emit(J{"op": "seq", "type": t.Name, "tf": "empty", "obj": "zero", "tag": "refresh", "steps": steps})
 		}
 	}
+}
+
+// nilContainers returns a copy of v in which every known list / map has no Elems container and every known nested object no
+// Attrs container (the top-level object keeps its attributes): what a state object written by hand looks like.
+func nilContainers(v attr.Value, depth int) attr.Value {
+	switch x := v.(type) {
+	case types.Object:
+		if x.Null || x.Unknown {
+			return x
+		}
+		if depth > 0 && depth%2 == 0 {
+			x.Attrs = nil
+			return x
+		}
+		attrs := make(map[string]attr.Value, len(x.Attrs))
+		for k, a := range x.Attrs {
+			attrs[k] = nilContainers(a, depth+1)
+		}
+		x.Attrs = attrs
+		return x
+	case types.List:
+		if !x.Null && !x.Unknown {
+			x.Elems = nil
+		}
+		return x
+	case types.Map:
+		if !x.Null && !x.Unknown {
+			x.Elems = nil
+		}
+		return x
+	}
+	return v
 }
 
 // exclusive keeps at most one attribute of every oneof group non-null (the quantifier of C07 / C08), at every depth.
